@@ -45,10 +45,34 @@ def history_one(payload):
                         problems.append({"kind": "validating the same dict object again gives a different result", "step": step, "doc": i,
                                          "first": expected[i][1][:3] if expected[i][0] == "ok" else expected[i], "again": again[1][:3] if again[0] == "ok" else again})
                 elif entry == "file":
-                    path = _os.path.join(tmpdir, "d%d.json" % step)
-                    with open(path, "w") as f:
-                        js.dump(d, f)
+                    # one path per document (the same path recurs when a document is submitted again), and for every
+                    # third history one path for all documents (the file's content changes between calls)
+                    path = _os.path.join(tmpdir, "shared.json" if len(calls) % 3 == 0 else "doc%d.json" % i)
+                    text = js.dumps(d)
+                    if not (_os.path.exists(path) and open(path).read() == text):      # an unchanged file is left untouched
+                        with open(path, "w") as f:
+                            f.write(text)
                     got = ("ok", v.validate(json_file_path=path))
+                elif entry in ("next_id", "all_ids"):
+                    # the two other public entry points: they validate the file and answer from the validated schema
+                    import io, contextlib
+                    path = _os.path.join(tmpdir, "shared.json" if len(calls) % 3 == 0 else "doc%d.json" % i)
+                    text = js.dumps(d)
+                    if not (_os.path.exists(path) and open(path).read() == text):
+                        with open(path, "w") as f:
+                            f.write(text)
+                    ids = [a["id"] for a in d["actions"]] if isinstance(d, dict) and isinstance(d.get("actions"), list) else None
+                    want = "refused" if expected[i] != ("ok", []) else ((max(ids) + 1 if ids else 0) if entry == "next_id" else ids)
+                    try:
+                        with contextlib.redirect_stdout(io.StringIO()):
+                            have = v.get_next_action_id(path) if entry == "next_id" else v.get_all_action_ids(path)
+                    except BaseException as e:  # noqa
+                        have = "refused" if str(e) == "Invalid schema" else "raise " + type(e).__name__
+                    if have != want:
+                        problems.append({"kind": "%s answers %r, a fresh validation of the document implies %r" % (
+                            "get_next_action_id" if entry == "next_id" else "get_all_action_ids", have, want), "step": step, "doc": i, "history": calls[:step + 1]})
+                        break
+                    continue
                 else:
                     got = ("ok", v.validate(json_string=js.dumps(d)))
             except BaseException as e:  # noqa
@@ -67,6 +91,49 @@ def history_one(payload):
     if specs_before != specs_after:
         problems.append({"kind": "module-level specification data was modified by validation"})
     return problems
+
+
+def across_processes(ctx, docs):
+    """The same documents validated in fresh interpreter processes that differ only in PYTHONHASHSEED (string hashing,
+    hence the iteration order of sets of strings, differs per process): the exact error lists must be the same."""
+    import subprocess
+    code = r'''
+import sys, json, os
+sys.path.insert(0, %r); os.chdir(%r)
+import warnings; warnings.simplefilter("ignore")
+from validation.schema_validator import SchemaValidator
+out = []
+for d in json.load(sys.stdin):
+    try:
+        out.append(["ok", SchemaValidator().validate(json_string=json.dumps(d))])
+    except BaseException as e:
+        out.append(["raise", type(e).__name__])
+print(json.dumps(out))
+''' % (ctx.repo_copy, ctx.repo_copy)
+    from concurrent.futures import ThreadPoolExecutor
+    seeds = ["0", "1", "2", "3", "77", "4242"]
+
+    def one(seed):
+        env = ctx.impl_env()
+        env["PYTHONHASHSEED"] = seed
+        r = subprocess.run([common.PY, "-W", "ignore", "-c", code], input=json.dumps(docs), capture_output=True, text=True, env=env)
+        return json.loads(r.stdout) if r.returncode == 0 else None
+    with ThreadPoolExecutor(max_workers=len(seeds)) as ex:
+        outs = list(ex.map(one, seeds))
+    if any(o is None for o in outs):
+        ctx.notes.append("across_processes: a runner failed")
+        return 0
+    bad = 0
+    for i, d in enumerate(docs):
+        for sd, o in zip(seeds[1:], outs[1:]):
+            if o[i] != outs[0][i]:
+                bad += 1
+                if bad <= 2:
+                    ctx.violation({"what": "the error list of one document differs between interpreter processes (PYTHONHASHSEED 0 vs %s)" % sd,
+                                   "document": d, "with_seed_0": outs[0][i][1][:4] if outs[0][i][0] == "ok" else outs[0][i],
+                                   "with_seed_%s" % sd: o[i][1][:4] if o[i][0] == "ok" else o[i]})
+                break
+    return len(docs) * len(seeds)
 
 
 def families(ctx, rng, n):
@@ -158,13 +225,18 @@ def run(ctx):
     for docs in fams:
         pool_docs = docs + rng.sample(ship, 2)
         for _ in range(2):
-            calls = [(rng.randrange(len(pool_docs)), rng.choice(["json", "json", "dict", "file"])) for _ in range(rng.randint(2, 7))]
+            calls = [(rng.randrange(len(pool_docs)), rng.choice(["json", "json", "dict", "file", "next_id", "all_ids"])) for _ in range(rng.randint(2, 7))]
             payloads.append({"docs": pool_docs, "calls": calls})
     # shipped documents among themselves (pipelines, imports, thread groups)
     for _ in range(60 if quick else 600):
         pool_docs = rng.sample(ship, min(5, len(ship)))
-        calls = [(rng.randrange(len(pool_docs)), rng.choice(["json", "dict", "file"])) for _ in range(rng.randint(2, 8))]
+        calls = [(rng.randrange(len(pool_docs)), rng.choice(["json", "dict", "file", "file", "next_id", "all_ids"])) for _ in range(rng.randint(2, 8))]
         payloads.append({"docs": pool_docs, "calls": calls})
+    # the same file submitted again (and again after another file), for every shipped document and family head
+    heads = ship + [docs[0] for docs in fams[:20 if quick else 200]]
+    for i in range(len(heads)):
+        j = (i + 1) % len(heads)
+        payloads.append({"docs": [heads[i], heads[j]], "calls": [(0, "file"), (0, "file"), (1, "file"), (0, "file"), (0, "all_ids")]})
     # pipeline families: a shipped document with and without its pipelines
     for d in ship:
         if d.get("pipelines"):
@@ -234,6 +306,14 @@ def run(ctx):
     pool = impl.Pool(ctx)
     results = pool.call_many("history_one", payloads, chunk=2)
     pool.close()
+    # process-level repeatability: invalid and valid family members (competing fulfillers, duplicates, cycles ...)
+    xdocs = [d for docs in fams[:40 if quick else 300] for d in docs] + ship
+    # faults whose error messages depend on which of several candidates is picked (competing creators, duplicates ...)
+    for _ in range(60 if quick else 600):
+        s2, name, owner, desc = M.mutate(rng, only=("C06", "C10", "C02"))
+        xdocs.append(S.render(s2, random.Random(rng.randrange(1 << 30)), "id" if name in M.FORCE_ID_SPELLING else "mixed", rng.random() < 0.5, False))
+    n_cross = across_processes(ctx, xdocs)
+    ctx.coverage["across_processes"] = {"documents": len(xdocs), "validations": n_cross}
     n_calls = sum(len(p["calls"]) for p in payloads)
     seen = set()
     bad = 0
@@ -246,7 +326,7 @@ def run(ctx):
             ctx.violation({"what": pr["kind"], "detail": pr, "documents": p["docs"], "calls": p["calls"]})
     ctx.coverage.update({
         "evaluations": n_calls, "distinct_nontrivial": len(set(json.dumps(p["calls"]) + str(len(p["docs"])) + json.dumps(p["docs"][0], sort_keys=True)[:200] for p in payloads)),
-        "rule": "histories of 2-8 validate() calls on one instance over (a) families sharing ids: a conformant scenario, re-renderings of it and up to 3 single-fault variants of the same scenario, mixed with shipped schemas, (b) shipped schemas among themselves (pipelines, imports, thread groups), (c) each shipped schema with pipelines vs the same schema without; entry point drawn per call from dict / JSON string / file; every call is compared with a fresh instance (exact error list); dict calls also check that the caller's object is unchanged and that validating the same object again gives the same result; distinct by (documents, call sequence)",
+        "rule": "histories of 2-8 validate() calls on one instance over (a) families sharing ids: a conformant scenario, re-renderings of it and up to 3 single-fault variants of the same scenario, mixed with shipped schemas, (b) shipped schemas among themselves (pipelines, imports, thread groups), (c) each shipped schema with pipelines vs the same schema without; entry point drawn per call from dict / JSON string / file / get_next_action_id / get_all_action_ids (the same file path may recur); every call is compared with a fresh instance (exact error list); dict calls also check that the caller's object is unchanged and that validating the same object again gives the same result; distinct by (documents, call sequence)",
         "samples": [{"calls": payloads[0]["calls"], "n_docs": len(payloads[0]["docs"])}],
         "histories": len(payloads), "problems": bad, "disagreements_checked": bad,
         "trusted_base": ["tools/gen_state.py: ast def/use pass (assumes fields are only touched through `self.<name>` syntax)",
